@@ -70,9 +70,14 @@ def rand_config(rng, mode=None):
     text = rng.choice(SEED_TEXTS)
     if rng.random() < 0.25:
         text = "".join(rng.choice(["a", "b", " ", "\n", "界", "(", ")", "x", "  "]) for _ in range(rng.randint(0, 14)))
-    return {"mode": mode or rng.choice(["vi", "vi", "emacs"]), "multiline": rng.random() < 0.5,
-            "read_only": rng.random() < 0.12, "text": text, "cursor": rng.randint(0, len(text)),
-            "history": rng.choice(HISTORIES), "clipboard": rng.choice(CLIPS), "completer": rng.random() < 0.3}
+    cfg = {"mode": mode or rng.choice(["vi", "vi", "emacs"]), "multiline": rng.random() < 0.5,
+           "read_only": rng.random() < 0.12, "text": text, "cursor": rng.randint(0, len(text)),
+           "history": rng.choice(HISTORIES), "clipboard": rng.choice(CLIPS), "completer": rng.random() < 0.3}
+    # a forced render after every key (sessions without a completer: its answer is a background task and
+    # the known finding C05-F13 is attributed through the <yield>/<release> tokens only)
+    if not cfg["completer"] and rng.random() < 0.5:
+        cfg["render_each"] = True
+    return cfg
 
 
 def rand_count(rng):
@@ -267,3 +272,81 @@ def completion_family(full):
                 for o in opens:
                     for m in moves:
                         yield dict(mode="emacs", multiline=True, text=t, cursor=len(t), completer=comp, complete_while_typing=True), ["a"] + o + [m, "<release>", "x"]
+
+
+def long_arg_family(full):
+    """Numeric arguments longer than int() converts (sys.get_int_max_str_digits() = 4300): the count is typed as
+    a run of digits in Vi navigation mode or after Meta-<digit> / Meta-- in Emacs mode, then a command reads
+    event.arg.  Lengths on both sides of the limit; leading zeros count as digits."""
+    out = []
+    vi = dict(mode="vi", multiline=False, text="hello world", cursor=2, history=[], clipboard="Q")
+    em = dict(mode="emacs", multiline=False, text="hello world", cursor=2, history=[], clipboard="Q")
+    lens = [4299, 4300, 4301] + ([5000, 4302] if full else [])
+    for n in lens:
+        out.append((dict(vi), ["<escape>"] + ["1"] * n + ["x", "l"]))
+        out.append((dict(em), ["<escape>", "1"] + ["1"] * (n - 1) + ["<c-f>", "x"]))
+    out.append((dict(em), ["<escape>", "-"] + ["1"] * 4301 + ["x"]))
+    out.append((dict(em), ["<escape>", "0"] + ["0"] * 4300 + ["x"]))
+    if full:
+        out.append((dict(vi), ["<escape>", "2"] + ["0"] * 4300 + ["d", "w"]))
+        out.append((dict(vi), ["<escape>", "d", "3"] + ["7"] * 4300 + ["w"]))
+        out.append((dict(vi, multiline=True, text="a\nb\nc"), ["<escape>", "9"] + ["9"] * 4300 + ["G"]))
+    return out
+
+
+# wave-4 families (Round 9, part A): yank-nth-arg counts, operators on empty lines, insert-mode completion
+def yank_arg_family(full):
+    """Emacs yank-nth-arg (M-C-y) / yank-last-arg (M-.) with numeric arguments on both sides of the number of
+    words of the previous history line, blank and empty history entries, repeated presses."""
+    out = []
+    hists = [["one two three four"], ["   "], [""], ["a"], [], ["x y", "   ", "p q r"]]
+    args = [[], ["<escape>", "-"], ["<escape>", "-", "5"], ["<escape>", "-", "1"], ["<escape>", "0"], ["<escape>", "1"],
+            ["<escape>", "4"], ["<escape>", "5"], ["<escape>", "9"]]
+    cmds = [["<escape>", "<c-y>"], ["<escape>", "."], ["<escape>", ".", "<escape>", "."], ["<escape>", "<c-y>", "<escape>", "."]]
+    for h in hists:
+        for a in args:
+            for c in cmds:
+                for text in (["", "ab "] if full else [""]):
+                    out.append((dict(mode="emacs", multiline=False, text=text, cursor=len(text), history=list(h), clipboard=None),
+                                a + c + ["x", "<c-a>"]))
+    return out
+
+
+def empty_line_operator_family(full):
+    """Vi operators with motions / selections that span nothing: empty buffer, empty lines."""
+    out = []
+    docs = [("", 0), ("\n", 0), ("\n", 1), ("a\n\nb", 2), ("ab\n", 3)]
+    ops = [["g", "U"], ["g", "u"], ["g", "~"], ["g", "?"], ["d"], ["c"], ["y"], [">"], ["<"], ["g", "q"], ["~"]]
+    motions = [["G"], ["g", "g"], ["w"], ["b"], ["e"], ["$"], ["0"], ["^"], ["j"], ["k"], ["l"], ["h"], ["i", "p"], ["a", "p"],
+               ["i", "w"], ["}"], ["{"], ["%"]]
+    if not full:
+        motions = motions[:3] + motions[5:7] + motions[8:10] + motions[12:15]
+    for text, cur in docs:
+        cfg = dict(mode="vi", multiline=True, text=text, cursor=cur, history=["h"], clipboard="Q")
+        for op in ops:
+            if op == ["~"]:
+                continue
+            for m in motions:
+                out.append((dict(cfg), ["<escape>"] + op + m + ["x"]))
+            out.append((dict(cfg), ["<escape>"] + op + [op[-1]] + ["x"]))          # doubled: the line-wise form
+        for sel in (["V"], ["v"], ["<c-v>"], ["V", "j"], ["v", "k"]):
+            for op in ops + [["J"], ["x"], ["r", "z"], ["I"], ["A"]]:
+                out.append((dict(cfg), ["<escape>"] + sel + op + ["x", "<escape>"]))
+    return out
+
+
+def insert_completion_family(full):
+    """Vi insert-mode completion commands (C-x C-l history lines, C-x C-f, C-n, C-p) when nothing matches:
+    empty input and history, blank lines, a prefix ending in a blank."""
+    out = []
+    hists = [[], [""], ["foo bar"], ["  ", "foo"]]
+    docs = [("", 0), ("  ", 2), ("foo ", 4), ("\n", 1), ("zz", 2), ("foo", 3)]
+    cmds = [["<c-x>", "<c-l>"], ["<c-x>", "<c-f>"], ["<c-n>"], ["<c-p>"], ["<c-x>", "<c-l>", "<c-n>"], ["<c-x>", "<c-l>", "<c-p>"],
+            ["<c-x>", "<c-l>", "<c-x>", "<c-l>"]]
+    for h in hists:
+        for text, cur in docs:
+            for c in cmds:
+                for tail in ([["<escape>"], ["x"], ["<c-e>"], ["<c-y>"]] if full else [["<escape>", "x"]]):
+                    out.append((dict(mode="vi", multiline="\n" in text, text=text, cursor=cur, history=list(h), clipboard=None),
+                                ["<escape>", "a"] + c + tail))
+    return out
